@@ -38,8 +38,28 @@
 #ifndef BODY_MAX
 #define BODY_MAX 12
 #endif
-#ifndef NBUF_MAX
-#define NBUF_MAX 2
+#ifndef NB
+#define NB 1
+#endif
+#ifndef S0
+#define S0 9
+#endif
+#ifndef S1
+#define S1 4
+#endif
+#define NBUF_MAX (NB <= 16 ? NB : 0)
+
+#ifndef VNATIVE
+/* byte-loop memcpy: CBMC's built-in model (array_copy/array_replace) at the
+ * symbolic offset b->data + reloc_ref.offset makes the array encoding explode;
+ * all copies of the code under analysis have a constant length <= 12 */
+void* memcpy(void* dst, const void* src, size_t n)
+{
+  __CPROVER_assert(n <= 64, "harness bound: memcpy length");
+  for (size_t i = 0; i < n; i++)
+    ((unsigned char*) dst)[i] = ((const unsigned char*) src)[i];
+  return dst;
+}
 #endif
 
 #include "/repo/libyara/arena.c"
@@ -50,23 +70,89 @@ void* yr_malloc(size_t size) { void* p = malloc(size); if (p) g_live++; return p
 void* yr_calloc(size_t count, size_t size) { void* p = calloc(count, size); if (p) g_live++; return p; }
 void* yr_realloc(void* ptr, size_t size)
 {
+#ifndef VNATIVE
+  /* in this harness every arena buffer is allocated exactly once */
+  __CPROVER_assert(ptr == NULL, "harness bound: no buffer is grown twice");
+  void* p = malloc(size);
+#else
   void* p = realloc(ptr, size);
+#endif
   if (p != NULL && ptr == NULL) g_live++;
   return p;
 }
 void yr_free(void* ptr) { if (ptr) g_live--; free(ptr); }
+
+/* ---- arena creation with a small initial capacity ------------------------
+ * yr_arena_load_stream asks for 10485-byte buffers; byte arrays of that size
+ * make the SAT encoding explode. The runner redirects its call of
+ * yr_arena_create to this wrapper (goto-instrument --replace-calls), which
+ * calls the real function with capacity SMALL_CAP instead. Behaviour must not
+ * depend on the capacity (that is property C19). The native replay uses the
+ * real constant. */
+#ifndef SMALL_CAP
+#define SMALL_CAP 16
+#endif
+/* same statements as yr_arena_create (arena.c:233-250; that function itself is
+ * covered by C19.arena.create) with the capacity replaced */
+int vstub_arena_create(uint32_t num_buffers, size_t initial_buffer_size, YR_ARENA** arena)
+{
+  YR_ARENA* new_arena = (YR_ARENA*) yr_calloc(1, sizeof(YR_ARENA));
+  if (new_arena == NULL)
+    return ERROR_INSUFFICIENT_MEMORY;
+  new_arena->xrefs = 1;
+  new_arena->num_buffers = num_buffers;
+  new_arena->initial_buffer_size = SMALL_CAP;
+  *arena = new_arena;
+  return ERROR_SUCCESS;
+}
 
 /* ---- the stream --------------------------------------------------------- */
 static uint8_t in_stream[STREAM_MAX];
 static size_t in_avail; /* bytes that can be read before the stream ends */
 static size_t g_pos;
 
+/* byte-wise copy with constant loop bounds: CBMC's memcpy model with a symbolic
+ * length needs tens of GB here */
+#define RD_MAXSIZE 12
+_Static_assert(S0 <= RD_MAXSIZE && S1 <= RD_MAXSIZE, "body sizes within the read stub's bound");
+#define RD_MAXCOUNT (NBUF_MAX > 1 ? NBUF_MAX : 1)
 size_t yr_stream_read(void* ptr, size_t size, size_t count, YR_STREAM* stream)
 {
   size_t done = 0;
-  while (done < count && size <= in_avail - g_pos)
+#ifndef VNATIVE
+  __CPROVER_assert(size <= RD_MAXSIZE && count <= RD_MAXCOUNT, "harness bound: item size/count of a stream read");
+#endif
+  for (int k = 0; k < RD_MAXCOUNT; k++)
   {
-    memcpy((uint8_t*) ptr + done * size, in_stream + g_pos, size);
+    if (!(done < count && size <= in_avail - g_pos))
+      break;
+#ifndef VNATIVE
+    /* typed stores for the three record types the loader reads: a byte-wise
+     * store through uint8_t* into the loader's local YR_ARENA_FILE_BUFFER[16]
+     * (192 bytes) is encoded by CBMC with its array theory and explodes */
+    if (size == sizeof(YR_ARENA_FILE_BUFFER))
+    {
+      YR_ARENA_FILE_BUFFER rec;
+      for (size_t j = 0; j < sizeof rec; j++) ((uint8_t*) &rec)[j] = in_stream[g_pos + j];
+      ((YR_ARENA_FILE_BUFFER*) ptr)[done] = rec;
+    }
+    else if (size == sizeof(YR_ARENA_FILE_HEADER))
+    {
+      YR_ARENA_FILE_HEADER rec;
+      for (size_t j = 0; j < sizeof rec; j++) ((uint8_t*) &rec)[j] = in_stream[g_pos + j];
+      ((YR_ARENA_FILE_HEADER*) ptr)[done] = rec;
+    }
+    else if (size == sizeof(YR_ARENA_REF))
+    {
+      YR_ARENA_REF rec;
+      for (size_t j = 0; j < sizeof rec; j++) ((uint8_t*) &rec)[j] = in_stream[g_pos + j];
+      ((YR_ARENA_REF*) ptr)[done] = rec;
+    }
+    else
+#endif
+    for (size_t j = 0; j < RD_MAXSIZE; j++)
+      if (j < size)
+        ((uint8_t*) ptr)[done * size + j] = in_stream[g_pos + j];
     g_pos += size;
     done++;
   }
@@ -82,7 +168,25 @@ size_t yr_stream_read(void* ptr, size_t size, size_t count, YR_STREAM* stream)
 void harness(void)
 {
   V_IN_ARR(uint8_t, stream_bytes, STREAM_MAX);
+  /* the truncation point is concrete per run (-DAVAIL=n, swept exhaustively over
+   * 0..STREAM_MAX by the runner): with a symbolic cut the stream position is
+   * symbolic in every copy and CBMC's array encoding explodes */
+#ifdef SW
+  /* SW = 4 * cut position + selector of the relocation entries' buffer id */
+  size_t avail = (SW) / 4;
+  {
+    static const uint32_t bid_choice[4] = {0, 1, 16, 0x80000001u};
+    /* buffer id of both relocation entries concrete: a symbolic id makes
+     * &arena->buffers[id] a pointer to anywhere in the arena object */
+    size_t rb = 6 + 12 * (size_t) NBUF_MAX + (NBUF_MAX > 0 ? S0 : 0) + (NBUF_MAX > 1 ? S1 : 0);
+    if (rb + 4 <= STREAM_MAX) memcpy(stream_bytes + rb, &bid_choice[(SW) % 4], 4);
+    if (rb + 12 <= STREAM_MAX) memcpy(stream_bytes + rb + 8, &bid_choice[(SW) % 4], 4);
+  }
+#elif defined(AVAIL)
+  size_t avail = AVAIL;
+#else
   V_IN(size_t, avail);
+#endif
   V_ASSUME(avail <= STREAM_MAX);
   memcpy(in_stream, stream_bytes, STREAM_MAX);
   in_avail = avail;
@@ -90,13 +194,17 @@ void harness(void)
   g_live = 0;
 
   /* the part of the input space this stand-in covers */
+  /* the buffer count is concrete per target (-DNB=0,1,2,17,200): with a symbolic
+   * count every buffer loop is unrolled 17 times on every path and symex does
+   * not finish */
+  in_stream[5] = NB;
   uint8_t nb = in_stream[5];
-  V_ASSUME(nb <= NBUF_MAX || nb > YR_MAX_ARENA_BUFFERS);
-  for (int i = 0; i < NBUF_MAX; i++)
+  /* body sizes are concrete per target as well (-DS0, -DS1): with symbolic sizes
+   * every later stream/arena index is symbolic and the array encoding explodes */
   {
-    uint32_t sz;
-    memcpy(&sz, in_stream + 6 + 12 * i + 8, 4);
-    V_ASSUME(sz <= BODY_MAX);
+    static const uint32_t body_size[2] = {S0, S1};
+    for (int i = 0; i < NBUF_MAX; i++)
+      memcpy(in_stream + 6 + 12 * i + 8, &body_size[i], 4);
   }
 
   YR_ARENA* arena = (YR_ARENA*) &g_live; /* sentinel: must stay untouched on error */
@@ -156,7 +264,7 @@ void harness(void)
     void* target;
     memcpy(&target, b->data + r->offset, sizeof target);
     int ok = (target == NULL);
-    for (uint32_t i = 0; i < YR_MAX_ARENA_BUFFERS; i++)
+    for (uint32_t i = 0; i < NBUF_MAX; i++)
       if (i < arena->num_buffers && arena->buffers[i].data != NULL &&
           (uint8_t*) target >= arena->buffers[i].data &&
           (uint8_t*) target <= arena->buffers[i].data + arena->buffers[i].used)
